@@ -277,6 +277,143 @@ Proof.
   destruct t; reflexivity.
 Qed.
 
+(* ---- the chain rule ------------------------------------------------------------------------------------------ *)
+
+Lemma ty_wrap E p k : ty_ref E (wrap p k) = link_ref k.
+Proof. destruct k; reflexivity. Qed.
+
+Lemma find_imm_wrap E p k : find_imm_ref E (wrap p k) = find_imm_ref E p || is_imm (ty_ref E p).
+Proof. destruct k; reflexivity. Qed.
+
+Lemma find_ro_wrap E p k :
+  find_readonly_root E (wrap p k) = if is_ref (ty_ref E p) then None else find_readonly_root E p.
+Proof. destruct k; reflexivity. Qed.
+
+Lemma map_index_wrap p k : is_map_index (wrap p k) = false.
+Proof. destruct k; reflexivity. Qed.
+
+Lemma map_index_from l p : is_map_index p = false -> is_map_index (place_from p l) = false.
+Proof.
+  revert p. induction l as [|k r IH]; simpl; intros p H; [assumption|].
+  apply IH. apply map_index_wrap.
+Qed.
+
+Lemma imm_gen E l : forall p,
+  find_imm_ref E (place_from p l) || is_imm (ty_ref E (place_from p l)) =
+  find_imm_ref E p || imm_from (ty_ref E p) l.
+Proof.
+  induction l as [|k r IH]; simpl; intro p; [reflexivity|].
+  rewrite IH, find_imm_wrap, ty_wrap. rewrite orb_assoc. reflexivity.
+Qed.
+
+Lemma ro_gen E l : forall p,
+  find_readonly_root E (place_from p l) =
+  if own_from (ty_ref E p) l then find_readonly_root E p else None.
+Proof.
+  induction l as [|k r IH]; simpl; intro p; [reflexivity|].
+  rewrite IH, find_ro_wrap, ty_wrap.
+  destruct (is_ref (ty_ref E p)); simpl; [destruct (own_from (link_ref k) r); reflexivity | reflexivity].
+Qed.
+
+Lemma imm_from_head c l : is_imm c || imm_from c l = imm_from c l.
+Proof. destruct l; simpl; [apply orb_diag | rewrite orb_assoc, orb_diag; reflexivity]. Qed.
+
+(* for the three write forms the verdict of the port is exactly the rule *)
+Lemma write_diag_rejected E p (guard_map : bool) :
+  accepted (if report_blocks (check_mutability E p) then diag_of_mres (check_mutability E p)
+            else if is_imm (ty_ref E p) && guard_map then DImmRef else diag_of_mres (check_mutability E p)) =
+  negb (match find_readonly_root E p with Some _ => true | None => false end
+        || find_imm_ref E p || (is_imm (ty_ref E p) && guard_map)).
+Proof.
+  unfold check_mutability.
+  destruct (find_readonly_root E p) as [s|]; [destruct (is_const s); reflexivity|].
+  destruct (find_imm_ref E p); [reflexivity|].
+  destruct (find_value_receiver E p); simpl; destruct (is_imm (ty_ref E p) && guard_map); reflexivity.
+Qed.
+
+Lemma chain_exact E x s l f :
+  E x = Some s -> write_form f = true ->
+  allowed E f (place_from (PIdent x) l) = negb (chain_error s l).
+Proof.
+  intros Ex W. unfold allowed, chain_error.
+  set (p := place_from (PIdent x) l).
+  assert (M : is_map_index p = false) by (apply map_index_from; reflexivity).
+  assert (TY : ty_ref E (PIdent x) = s_ref s) by (simpl; rewrite Ex; reflexivity).
+  assert (FI : find_imm_ref E (PIdent x) = is_imm (s_ref s)) by (simpl; rewrite Ex; reflexivity).
+  assert (FR : find_readonly_root E (PIdent x) = if sym_ro s then Some s else None) by (simpl; rewrite Ex; reflexivity).
+  assert (I : find_imm_ref E p || is_imm (ty_ref E p) = imm_from (s_ref s) l).
+  { unfold p. rewrite imm_gen, TY, FI. apply imm_from_head. }
+  assert (R : match find_readonly_root E p with Some _ => true | None => false end = sym_ro s && own_from (s_ref s) l).
+  { unfold p. rewrite ro_gen, TY, FR. destruct (own_from (s_ref s) l), (sym_ro s); reflexivity. }
+  assert (G : forall g, g = true ->
+     negb (match find_readonly_root E p with Some _ => true | None => false end
+           || find_imm_ref E p || (is_imm (ty_ref E p) && g)) =
+     negb (imm_from (s_ref s) l || sym_ro s && own_from (s_ref s) l)).
+  { intros g Hg. subst g. rewrite andb_true_r, R, <- I.
+    destruct (sym_ro s && own_from (s_ref s) l), (find_imm_ref E p), (is_imm (ty_ref E p)); reflexivity. }
+  destruct f; simpl in W; try discriminate.
+  - change (diagnose E FAssign p) with (diag_assign E p). unfold diag_assign.
+    rewrite (write_diag_rejected E p (negb (is_map_index p))). apply G. rewrite M. reflexivity.
+  - change (diagnose E FCompound p) with (diag_assign E p). unfold diag_assign.
+    rewrite (write_diag_rejected E p (negb (is_map_index p))). apply G. rewrite M. reflexivity.
+  - change (diagnose E FIncDec p) with (diag_incdec E p).
+    assert (Q : diag_incdec E p = (if report_blocks (check_mutability E p) then diag_of_mres (check_mutability E p)
+              else if is_imm (ty_ref E p) && true then DImmRef else diag_of_mres (check_mutability E p))).
+    { unfold diag_incdec. rewrite andb_true_r. reflexivity. }
+    rewrite Q, (write_diag_rejected E p true). apply G. reflexivity.
+Qed.
+
+(* why a write form is rejected, in terms of the reference judgement *)
+Lemma rejected_reason E f p :
+  write_form f = true -> is_map_index p = false -> allowed E f p = false ->
+  TargetFrozen E f p \/ InReadonlyBinding E p.
+Proof.
+  intros W M A.
+  assert (S : stores_slot f p = false) by (destruct f; simpl; try reflexivity; assumption).
+  assert (D : (exists s, find_readonly_root E p = Some s) \/ find_imm_ref E p = true \/ is_imm (ty_ref E p) = true).
+  { unfold allowed in A.
+    assert (Q : accepted (if report_blocks (check_mutability E p) then diag_of_mres (check_mutability E p)
+              else if is_imm (ty_ref E p) && true then DImmRef else diag_of_mres (check_mutability E p)) = false).
+    { destruct f; simpl in W; try discriminate; simpl in A; unfold diag_assign, diag_incdec in A;
+        rewrite ?M in A; simpl in A; rewrite ?andb_true_r in *; exact A. }
+    rewrite write_diag_rejected in Q. apply negb_false_iff in Q. rewrite andb_true_r in Q.
+    destruct (find_readonly_root E p) as [s0|]; [left; exists s0; reflexivity|].
+    right. simpl in Q. apply orb_true_iff in Q. exact Q. }
+  destruct D as [[s0 F]|[F|F]].
+  - right. exact (proj1 (find_binding E p s0 F)).
+  - left. pose proof (find_referent E p F) as RF. unfold TargetFrozen. rewrite S.
+    destruct (ty_ref E p) eqn:Ty; try exact RF.
+    destruct RF as [RF|RF]; [congruence | right; exact RF].
+  - left. apply is_imm_true in F. unfold TargetFrozen. rewrite F, S. left. exact F.
+Qed.
+
+(* the rule agrees with the reference judgement *)
+Lemma chain_rule_agrees E x s l f :
+  E x = Some s -> write_form f = true ->
+  (chain_error s l = true <->
+   TargetFrozen E f (place_from (PIdent x) l) \/ InReadonlyBinding E (place_from (PIdent x) l)).
+Proof.
+  intros Ex W. pose proof (chain_exact E x s l f Ex W) as X. split.
+  - intro C. rewrite C in X. simpl in X.
+    apply rejected_reason; [assumption | apply map_index_from; reflexivity | assumption].
+  - intros [T|B].
+    + rewrite (full E f _ T) in X. destruct (chain_error s l); [reflexivity | discriminate].
+    + assert (A : allowed E f (place_from (PIdent x) l) = false).
+      { pose proof (binding_blocks E _ B) as BB. unfold allowed.
+        destruct f; simpl in W; try discriminate; simpl; unfold diag_assign, diag_incdec;
+          apply guarded_form_rejects; assumption. }
+      rewrite A in X. destruct (chain_error s l); [reflexivity | discriminate].
+Qed.
+
+(* the seeded shape: a value receiver (or by-value parameter) whose field is an immutable reference *)
+Lemma value_root_imm_field_rejected E x k l f :
+  E x = Some (mkSym k false RNone) -> write_form f = true ->
+  allowed E f (place_from (PIdent x) (LImm :: l)) = false.
+Proof.
+  intros Ex W. rewrite (chain_exact E x _ (LImm :: l) f Ex W). unfold chain_error. simpl.
+  destruct l; reflexivity.
+Qed.
+
 (* ---- concrete scope used for non-vacuity and for the refutation of the pre-fix code ------------------------ *)
 
 (* 0: const c: S    1: r: &S (parameter)    2: let v: S    3: for index i    4: catch e    5: m: &'S    6: const k := &'v *)
